@@ -21,7 +21,7 @@ import (
 
 func untouchedCfgs() []Cfg {
 	// synchronous configurations only: the real background writer runs on real time
-	return []Cfg{{}, {Cache: true}, {Compress: true, Ext: ".obj"}, {Cache: true, Compress: true, Lower: true, Index: 1}, {Index: 2}, {Index: 3, Ext: ".obj"}}
+	return []Cfg{{}, {Cache: true}, {Compress: true, Ext: ".v1.obj"}, {Cache: true, Compress: true, Lower: true, Index: 1}, {Index: 2}, {Index: 3, Ext: ".v1.obj"}}
 }
 
 func untouchedPaths() [][]Op {
